@@ -272,6 +272,8 @@ def run_impl(rec):
         kw["dim_units"] = list(rec["dunits"])
     if rec["labels"] is not None:
         kw["slicelabels"] = rec["labels"] if rec["labels"] is True else list(rec["labels"])
+    import copy
+    kw_before = copy.deepcopy({k: v for k, v in kw.items() if k != "dims"})
     try:
         with common.quiet():
             a = emdfile.Array(data=data, name="arr", units=rec["units"], **kw)
@@ -280,6 +282,11 @@ def run_impl(rec):
         out["ctor"] = alpha.exc_kind(e)
         return out, None
     leak = addresses_own_slices(a) if a.is_stack else None      # the labels are used BEFORE any change, too
+    # the lists the caller passed (dim_units, dim_names, slicelabels) are the caller's: the constructor does not write into them
+    changed = [k for k, v in kw_before.items() if kw.get(k) != v]
+    if changed and leak is None:
+        leak = {"constructor_modified_its_arguments": changed, "before": {k: kw_before[k] for k in changed},
+                "after": {k: kw[k] for k in changed}}
     for st in rec["then"]:
         try:
             apply_setter(a, st)
